@@ -7,7 +7,9 @@
 // cancellation scenarios over a real server), c18.go (in-process RPC matrix,
 // oracles), sockets.go (C18 over a real server with the grpc-go client), ws.go
 // (C18 WebSocket lane), backend.go (real grpc.Server + reflection v1alpha
-// back-end for the proxied target), run.go (entry points, replay dispatch).
+// back-end for the proxied target), msgkinds.go (C18 message-kind lane:
+// request / reply kinds such as google.api.HttpBody and body / response_body
+// selectors), run.go (entry points, replay dispatch).
 //
 // Note on proxied client streams: larking's forwarder reads every message
 // after the first in a goroutine of its own. While defect D22 (stats payload
